@@ -7,6 +7,7 @@ package tmmirror_test
 // compare with the uninterrupted run.
 
 import (
+	"bytes"
 	"context"
 	"crypto/sha256"
 	"fmt"
@@ -319,7 +320,13 @@ func c10RunWithCrash(r *verifkit.Run, id string, w *world, g *gen, tape []func()
 				}
 			}
 		}
-		// (3) persisted votes and proposals of the resumed rounds are present again
+		// (3) persisted votes and proposals of the resumed rounds are present again. Only right
+		// after the restart: later the views are those of rounds entered by the running
+		// mirror, which does not load what the round store holds for a round it enters (the
+		// known finding about future votes); the property speaks of the rounds it resumes in.
+		if when != "right after restart" {
+			return true
+		}
 		for _, v := range []*tmconsensus.VersionedRoundView{&vv, &cv} {
 			if v.Height == 0 {
 				continue
@@ -345,6 +352,13 @@ func c10RunWithCrash(r *verifkit.Run, id string, w *world, g *gen, tape []func()
 				{kindPrevote, pvs, sparseIndex(v, kindPrevote)},
 				{kindPrecommit, pcs, sparseIndex(v, kindPrecommit)},
 			} {
+				if len(kc.stored.PubKeyHash) > 0 && !bytes.Equal(kc.stored.PubKeyHash, v.ValidatorSet.PubKeyHash) {
+					// filed under another validator set's hash while this was a round of a height
+					// not reached yet (DESIGN Appendix B 13): not votes of this round's set, and
+					// since f34f085 deliberately not loaded
+					counters["stored-collection-of-another-validator-set-not-expected-in-view"]++
+					continue
+				}
 				for hash, sigs := range kc.stored.BlockSignatures {
 					for _, s := range sigs {
 						if !kc.inView[hash][string(s.KeyID)+"|"+string(s.Sig)] {
